@@ -105,6 +105,124 @@ fn panic_msg(e: Box<dyn std::any::Any + Send>) -> String {
     }
 }
 
+/// Forced thread schedules (C17): scenario threads park at every lock point of gdsl (cfg gdsl_verif) and
+/// proceed only when the replayed schedule says so.
+pub mod sched {
+    use std::cell::Cell;
+    use std::sync::{Condvar, Mutex};
+    use std::time::{Duration, Instant};
+
+    thread_local! { pub static TID: Cell<usize> = Cell::new(0); }
+
+    pub struct St {
+        pub parked: Vec<bool>,
+        pub permit: Vec<bool>,
+        pub done: Vec<bool>,
+        pub free_run: bool,
+    }
+    pub static ST: Mutex<St> = Mutex::new(St { parked: vec![], permit: vec![], done: vec![], free_run: true });
+    pub static CV: Condvar = Condvar::new();
+
+    pub fn reset(n: usize) {
+        let mut s = ST.lock().unwrap_or_else(|e| e.into_inner());
+        s.parked = vec![false; n + 1];
+        s.permit = vec![false; n + 1];
+        s.done = vec![false; n + 1];
+        s.free_run = false;
+    }
+
+    pub fn park() {
+        let tid = TID.with(|t| t.get());
+        if tid == 0 {
+            return;
+        }
+        let mut s = ST.lock().unwrap_or_else(|e| e.into_inner());
+        if s.free_run {
+            return;
+        }
+        s.parked[tid] = true;
+        CV.notify_all();
+        while !s.permit[tid] && !s.free_run {
+            s = CV.wait(s).unwrap_or_else(|e| e.into_inner());
+        }
+        s.permit[tid] = false;
+        s.parked[tid] = false;
+    }
+
+    pub fn hook(_addr: usize, _write: bool) {
+        park();
+    }
+
+    pub fn finished() {
+        let tid = TID.with(|t| t.get());
+        let mut s = ST.lock().unwrap_or_else(|e| e.into_inner());
+        if tid < s.done.len() {
+            s.done[tid] = true;
+        }
+        CV.notify_all();
+    }
+
+    /// let thread `tid` take one step of the schedule; returns when it parks again, finishes, or `ms` elapse
+    pub fn step(tid: usize, ms: u64) {
+        let mut s = ST.lock().unwrap_or_else(|e| e.into_inner());
+        if s.done[tid] {
+            return;
+        }
+        let deadline = Instant::now() + Duration::from_millis(ms);
+        if s.parked[tid] {
+            s.permit[tid] = true;
+            s.parked[tid] = false;
+            CV.notify_all();
+        }
+        loop {
+            if s.done[tid] || (s.parked[tid] && !s.permit[tid]) {
+                return;
+            }
+            let now = Instant::now();
+            if now >= deadline {
+                return;
+            }
+            let (g, _) = CV.wait_timeout(s, deadline - now).unwrap_or_else(|e| e.into_inner());
+            s = g;
+        }
+    }
+
+    pub fn wait_all_parked(n: usize, ms: u64) {
+        let mut s = ST.lock().unwrap_or_else(|e| e.into_inner());
+        let deadline = Instant::now() + Duration::from_millis(ms);
+        loop {
+            if (1..=n).all(|t| s.parked[t] || s.done[t]) {
+                return;
+            }
+            let now = Instant::now();
+            if now >= deadline {
+                return;
+            }
+            let (g, _) = CV.wait_timeout(s, deadline - now).unwrap_or_else(|e| e.into_inner());
+            s = g;
+        }
+    }
+
+    /// release everybody and wait for completion; false = some thread never finished
+    pub fn free_run_and_wait(n: usize, ms: u64) -> bool {
+        let mut s = ST.lock().unwrap_or_else(|e| e.into_inner());
+        s.free_run = true;
+        CV.notify_all();
+        let deadline = Instant::now() + Duration::from_millis(ms);
+        loop {
+            if (1..=n).all(|t| s.done[t]) {
+                return true;
+            }
+            let now = Instant::now();
+            if now >= deadline {
+                return false;
+            }
+            let (g, _) = CV.wait_timeout(s, deadline - now).unwrap_or_else(|e| e.into_inner());
+            s = g;
+        }
+    }
+}
+
 pub struct FilterTable {
     rows: Vec<(K, K, E, bool)>,
     default: bool,
@@ -187,19 +305,19 @@ macro_rules! directed_graph_steps {
 mod fl_digraph {
     use super::*;
     use gdsl::digraph::*;
-    flavour_impl!(directed);
+    flavour_impl!(directed, plain);
     directed_graph_steps!();
 }
 mod fl_sync_digraph {
     use super::*;
     use gdsl::sync_digraph::*;
-    flavour_impl!(directed);
+    flavour_impl!(directed, sync);
     directed_graph_steps!();
 }
 mod fl_ungraph {
     use super::*;
     use gdsl::ungraph::*;
-    flavour_impl!(undirected);
+    flavour_impl!(undirected, plain);
     impl World {
         dot_attr_impl!();
         fn step_graph_flavour(&self, op: &str, a: &Vec<Value>) -> Value {
@@ -213,7 +331,7 @@ mod fl_ungraph {
 mod fl_sync_ungraph {
     use super::*;
     use gdsl::sync_ungraph::*;
-    flavour_impl!(undirected);
+    flavour_impl!(undirected, sync);
     impl World {
         fn step_graph_flavour(&self, op: &str, a: &Vec<Value>) -> Value {
             json!({"error": format!("unknown step {}", op)})
@@ -237,6 +355,8 @@ fn run_scenario(scen: Value, tx: mpsc::Sender<Value>) {
 
 fn main() {
     std::panic::set_hook(Box::new(|_| {}));
+    #[cfg(gdsl_verif)]
+    gdsl::verif_hook::install(Some(sched::hook));
     let watchdog_ms: u64 = std::env::var("REPLAY_WATCHDOG_MS").ok().and_then(|s| s.parse().ok()).unwrap_or(3000);
     let stdin = std::io::stdin();
     let stdout = std::io::stdout();
@@ -257,6 +377,12 @@ fn main() {
             match rx.recv_timeout(Duration::from_millis(watchdog_ms)) {
                 Ok(v) => {
                     if v == json!("__end__") {
+                        break;
+                    }
+                    if v.get("hang").is_some() {
+                        // the scenario's own deadlock detection fired: blocked threads hold locks, stop here
+                        obs.push(v);
+                        hung = true;
                         break;
                     }
                     obs.push(v);
